@@ -52,6 +52,7 @@ def resStr (sorted : Bool) : Res → String
   | .guard => "guard" | .none => "none" | .pending => "pending" | .err => "err"
   | .userPanic => "upanic" | .ok => "ok" | .bad => "bad" | .ended => "end"
   | .out o => outStr sorted o
+  | .suspended cands => "susp(" ++ pairsStr cands ++ ") pending"
   | .item h k => "item " ++ toString h ++ ":" ++ toString k
   | .handles l => "hs " ++ pairsStr l
 
@@ -91,6 +92,8 @@ def parseRound (s : String) : Option Round :=
     | ["err"] => some ⟨acts.reverse, recount, .err⟩
     | ["panic"] => some ⟨acts.reverse, recount, .panic⟩
     | ["lpanic"] => if recount then none else some ⟨acts.reverse, false, .latePanic⟩
+    | ["pend", "ok"] => some ⟨acts.reverse, recount, .pendOk⟩
+    | ["pend", "err"] => some ⟨acts.reverse, recount, .pendErr⟩
     | "rm" :: r => go r (.rm :: acts) recount
     | "keep" :: r => go r (.keep :: acts) recount
     | "stash" :: r => go r (.stash :: acts) recount
@@ -123,7 +126,10 @@ def parseCall (toks : List String) : Option Call :=
   | ["lock", v, h, k, h0, "soft", n, sc] => do
     let n ← nat? n
     if n = 0 then none else
-    some (.lock (← parseVariant v) (← nat? h) (← nat? k) (.soft n (← parseScript sc)) (← nat? h0))
+    let script ← parseScript sc
+    -- only the callback of an async variant returns a future that can be pending
+    if script.any (fun r => r.fin = .pendOk || r.fin = .pendErr) && !(["a", "ao", "ta", "tao"].contains v) then none else
+    some (.lock (← parseVariant v) (← nat? h) (← nat? k) (.soft n script) (← nat? h0))
   | ["poll", h] => (nat? h).map .poll
   | ["cancel", h] => (nat? h).map .cancel
   | ["drop", h] => (nat? h).map .drop
